@@ -485,6 +485,11 @@ func TestCheck(t *testing.T) {
 		judgeBurst(r, t, bt)
 		return
 	}
+	var lh lockheldT
+	if mon.ReplayCase(&lh) && lh.LockHeld {
+		judgeLockHeld(r, t, lh)
+		return
+	}
 	var wb wblockT
 	if mon.ReplayCase(&wb) && wb.WBlock {
 		judgeWBlock(r, t, wb)
@@ -524,6 +529,11 @@ func TestCheck(t *testing.T) {
 	for i, wf := range wfailGrid() {
 		if r.Mine(i) {
 			judgeWFail(r, t, wf)
+		}
+	}
+	for i, lh := range lockheldGrid() {
+		if r.Mine(i) {
+			judgeLockHeld(r, t, lh)
 		}
 	}
 	for i, wb := range wblockGrid() {
